@@ -315,6 +315,17 @@ class Prop:
             a = rand_tensor_json(rng, shape, maxr=2); b = rand_tensor_json(rng, shape, maxr=2)
             mk("dot", a, b, k=None, dense=rng.choice(["a", "b"]), cls="dense-operand")
 
+        # partial contraction with one dense operand (k given, or operands of different dimension)
+        for _ in range(80 if quick else 500):
+            N1 = rng.randint(1, 3); N2 = rng.randint(1, 3)
+            k = rng.choice([None] + list(range(0, min(N1, N2) + 1)))
+            kk = min(N1, N2) if k is None else k
+            if (N1 - kk) + (N2 - kk) > 4:
+                continue
+            s1 = shp(N1); s2 = s1[:kk] + shp(N2 - kk)
+            mk("dot", rand_tensor_json(rng, s1, maxr=2), rand_tensor_json(rng, s2, maxr=2), k=k,
+               dense=rng.choice(["a", "b"]), cls="dense-operand-partial")
+
         # ---- 4. norm, normsq
         for N in (1, 2):
             for ka in itertools.product(KINDS, repeat=N):
